@@ -51,7 +51,9 @@ def subpixel_pcc(
     # Initial shift estimate in upsampled grid
     shifts = np.fix(shifts * upsample_factor) / upsample_factor
     if upsample_factor > 1:
-        upsampled_region_size = math.ceil(upsample_factor * 1.5)
+        # The integer estimate is restricted to +-int(max_shifts), so the true peak
+        # can be up to 1 pixel away from it. The upsampled region must cover +-1 pixel.
+        upsampled_region_size = 2 * upsample_factor + 1
         # Center of output array at dftshift + 1
         dftshift = float(np.fix(upsampled_region_size / 2.0))
         # Matrix multiply DFT around the current shift estimate
